@@ -679,6 +679,14 @@ func execCase(kind byte, body []byte) *core.Verdict {
 			t = strings.Repeat("}", c.Deep) + strings.Repeat("a{", c.Deep)
 		case "brace-keywords": // an opening brace where a keyword must stand, then nesting
 			t = strings.Repeat("a { { } ", c.Deep/2) + strings.Repeat("a{", c.Deep)
+		case "failing-union-chain": // typedef tN { type union { type tN-1; type tN-1; } } over an unresolvable t0: 2N+2 lines of text
+			var sb strings.Builder
+			sb.WriteString("module m { namespace \"urn:m\"; prefix m;\ntypedef t0 { type nosuch; }\n")
+			for i := 1; i <= c.Deep; i++ {
+				fmt.Fprintf(&sb, "typedef t%d { type union { type t%d; type t%d; } }\n", i, i-1, i-1)
+			}
+			fmt.Fprintf(&sb, "leaf l { type t%d; }\n}", c.Deep)
+			t = sb.String()
 		case "typedef-chain", "grouping-chain", "identity-chain": // recursion along references between SIBLINGS
 			var sb strings.Builder
 			sb.WriteString("module m { namespace \"urn:m\"; prefix m;\n")
@@ -939,6 +947,7 @@ func check(r *core.Run) {
 	for _, d := range []int{300, 9000, 12000} { // (FindGrouping scans the siblings: the time is quadratic, which is not the question here)
 		deep = append(deep, []byte(fmt.Sprintf(`{"deep":%d,"shape":"grouping-chain"}`, d)))
 	}
+	deep = append(deep, []byte(`{"deep":40,"shape":"failing-union-chain"}`)) // work must not double with every level
 	for _, d := range []int{300, 2000} { // every identity lists all identities derived from it: the result itself is quadratic
 		deep = append(deep, []byte(fmt.Sprintf(`{"deep":%d,"shape":"identity-chain"}`, d)))
 	}
